@@ -145,6 +145,16 @@ def build_crystal(rec):
     import numpy as np
     from chmpy.crystal import Crystal, UnitCell, SpaceGroup, AsymmetricUnit
     from chmpy.core.element import Element
+    if rec.get("via_switch"):
+        # an object that has been *used* in the other trigonal setting and is then switched in place
+        cr = build_crystal(dict(rec["via_switch"], route=rec.get("route", "params")))
+        cr.unit_cell_atoms()
+        cr.unit_cell_connectivity()
+        cr.unit_cell_molecules()
+        cr.symmetry_unique_molecules()
+        cr.cartesian_symmetry_operations()
+        cr.choose_trigonal_lattice(rec["choice"])
+        return cr
     sg = SpaceGroup(rec["number"], choice=rec["choice"]) if rec["choice"] else SpaceGroup(rec["number"])
     lengths, angles = cell_params(rec["gram"], rec["u"])
     uc = UnitCell.from_lengths_and_angles(lengths, angles)
@@ -168,6 +178,31 @@ def build_crystal(rec):
         kw["occupation"] = np.array([s["occ"] / 12.0 for s in rec["asym"]])
     asym = AsymmetricUnit(els, pos, labels=labels, **kw)
     return Crystal(uc, sg, asym)
+
+
+MAT_RH = [[-1, 1, 0], [1, 0, -1], [1, 1, 1]]            # M: x_R = x_H . M
+MAT_HR3 = [[-1, 1, 1], [2, 1, 1], [-1, -2, 1]]           # 3 M^-1
+
+
+def switched_recipe(rec_h, rows):
+    """The rhombohedral-axes description of a hexagonal-axes recipe (mirror of Reexpress!SwitchTrigonal, used only to
+    *propose* the post-switch crystal: the trace carries the H state and TLC certifies the proposal, else OOD)."""
+    g = rec_h["gram"]
+    t3 = MAT_HR3
+    tg = [[sum(t3[i][k] * g[k][j] for k in range(3)) for j in range(3)] for i in range(3)]
+    gr = [[sum(tg[i][k] * t3[j][k] for k in range(3)) for j in range(3)] for i in range(3)]
+    if any(x % 9 for row in gr for x in row):
+        return None
+    row_r = [r for r in rows if r["number"] == rec_h["number"] and r["choice"] == "R"][0]
+    asym = []
+    for s in rec_h["asym"]:
+        p = s["p"]
+        asym.append(dict(s, p=[sum(p[k] * MAT_RH[k][j] for k in range(3)) for j in range(3)]))
+    rec = dict(rec_h, choice="R", gram=[[x // 9 for x in row] for row in gr], asym=asym)
+    rec["pre"] = {"choice": "H", "n": rec_h["n"], "gram": rec_h["gram"], "pts": [list(s["p"]) for s in rec_h["asym"]]}
+    rec["via_switch"] = {k: rec_h[k] for k in ("number", "choice", "n", "gram", "u", "asym") if k in rec_h}
+    rec["table_ops"] = row_r["ops"]
+    return rec
 
 
 def gram_tol(gram, n):
